@@ -394,7 +394,7 @@ func runA(r *mc.Run) {
 	r.Assume("in-memory needle map; the writer is sequential (the interleaved part (b) of the design is a separate check)")
 	var slices []slice
 	if r.Quick() {
-		slices = []slice{{2, 1, 1}, {1, 2, 1}, {2, 2, 0}}
+		slices = []slice{{2, 1, 1}, {1, 2, 1}, {2, 2, 0}, {1, 1, 2}}
 	} else {
 		slices = []slice{{2, 3, 1}, {2, 2, 2}, {3, 2, 1}}
 	}
